@@ -301,6 +301,40 @@ async fn snapshot_big_records(lens: Vec<usize>) -> Result<(), String> {
     }
 }
 
+
+/// C20 (s20_7): a real InstanceMetaRepository on a temp directory; records with metadata values of the given lengths are written
+/// (update_metadata), a second repository on the same directory loads the file map and reads them back (get_metadata).
+async fn metadata_file(lens: Vec<usize>) -> Result<(), String> {
+    use crate::naming::instance_meta_repository::{InstanceMetaDto, InstanceMetaRepository};
+    use crate::naming::model::{InstanceShortKey, ServiceKey};
+    let dir = tempfile::tempdir().unwrap();
+    let base = dir.path().to_string_lossy().into_owned();
+    let skey = ServiceKey::new("public", "g", "svc");
+    let mut repo = InstanceMetaRepository::new(base.clone()).await.map_err(|e| format!("MODEL: repository: {}", e))?;
+    let mut written = vec![];
+    for (i, n) in lens.iter().enumerate() {
+        let value: String = (0..*n).map(|j| (((i * 37 + j * 11 + 5) % 95 + 32) as u8) as char).collect();
+        let mut md = std::collections::HashMap::new();
+        md.insert("k".to_string(), value);
+        written.push(InstanceMetaDto::new(skey.clone(), InstanceShortKey { ip: Arc::new(format!("1.1.1.{}", i + 1)), port: 8000 + i as u32 }, Arc::new(md)));
+    }
+    repo.update_metadata(&skey, written.clone()).await.map_err(|e| format!("value lengths {:?}: writing the metadata file fails: {}", lens, e))?;
+    let again = InstanceMetaRepository::new(base).await.map_err(|e| format!("value lengths {:?}: the file map cannot be loaded: {}", lens, e))?;
+    let got = again.get_metadata(&skey).await.map_err(|e| format!("value lengths {:?}: reading the metadata file fails: {}", lens, e))?;
+    if got.len() != written.len() {
+        return Err(format!("value lengths {:?}: {} records are read back, {} were written", lens, got.len(), written.len()));
+    }
+    for (i, (a, b)) in written.iter().zip(got.iter()).enumerate() {
+        if a.instance_key.ip != b.instance_key.ip || a.instance_key.port != b.instance_key.port || a.metadata != b.metadata {
+            return Err(format!(
+                "value lengths {:?}: record {} is read back as another record (address {}:{}, value of {:?} bytes)",
+                lens, i, b.instance_key.ip, b.instance_key.port, b.metadata.get("k").map(|v| v.len())
+            ));
+        }
+    }
+    Ok(())
+}
+
 thread_local! {
     /// operation list of the replay file (scenarios that replay a solver history read it)
     static OPS: std::cell::RefCell<Vec<serde_json::Value>> = std::cell::RefCell::new(vec![]);
@@ -431,13 +465,128 @@ async fn sequence_table_history() -> Result<(), String> {
     Ok(())
 }
 
+
+/// C01 (s01_6): a history of committed naming requests on a real NamingActor; its table is written through a real SnapshotWriterActor,
+/// read back with the real SnapshotReader and loaded into a fresh actor: the persistent instances must be the same, field by field.
+async fn naming_snapshot_history() -> Result<(), String> {
+    use crate::naming::model::actor_model::{InstanceRegisterParam, NamingRaftReq};
+    use crate::naming::core::{NamingCmd, NamingResult};
+    use crate::naming::model::{InstanceKey, ServiceKey};
+    use crate::raft::filestore::model::SnapshotHeaderDto;
+    use crate::raft::filestore::raftapply::RaftApplyDataRequest;
+    use crate::raft::filestore::raftsnapshot::{SnapshotReader, SnapshotWriterActor, SnapshotWriterRequest};
+    let ops: Vec<serde_json::Value> = OPS.with(|o| o.borrow().clone());
+    let dir = tempfile::tempdir().unwrap();
+    let actor = NamingActor::new().start();
+    let skey = ServiceKey::new("public", "g", "svc");
+    for (k, op) in ops.iter().enumerate() {
+        let port = op["port"].as_u64().unwrap_or(1) as u32;
+        let req = match op["op"].as_str().unwrap_or("") {
+            "remove" => NamingRaftReq::RemoveInstance(InstanceKey::new_by_service_key(&skey, Arc::new("1.1.1.1".to_string()), port)),
+            name @ ("register" | "update") => {
+                let mut param = InstanceRegisterParam::default();
+                param.ip = Arc::new("1.1.1.1".to_string());
+                param.port = port;
+                param.weight = op["weight"].as_f64().unwrap_or(1.0) as f32;
+                param.enabled = op["enabled"].as_bool().unwrap_or(true);
+                param.healthy = op["healthy"].as_bool().unwrap_or(true);
+                param.ephemeral = false;
+                param.metadata = Arc::new(op["metadata"].as_object().map(|m| m.iter().map(|(a, b)| (a.clone(), b.as_str().unwrap_or("").to_string())).collect()).unwrap_or_default());
+                param.namespace_id = Arc::new("public".to_string());
+                param.group_name = Arc::new("g".to_string());
+                param.service_name = Arc::new("svc".to_string());
+                param.cluster_name = op["cluster_name"].as_str().map(|x| x.to_string());
+                param.app_name = op["app_name"].as_str().map(|x| x.to_string());
+                param.last_modified_millis = 1000;
+                if name == "register" {
+                    NamingRaftReq::RegisterInstance { param }
+                } else {
+                    NamingRaftReq::UpdateInstance { param }
+                }
+            }
+            other => return Err(format!("MODEL: unknown op {}", other)),
+        };
+        actor.send(req).await.map_err(|e| format!("MODEL: {}", e))?.map_err(|e| format!("op {}: a committed naming request is answered with an error: {}", k, e))?;
+    }
+    let path = Arc::new(dir.path().join("naming_snapshot_1").to_string_lossy().into_owned());
+    let header = SnapshotHeaderDto { last_index: 1, last_term: 1, member: vec![1], member_after_consensus: vec![], node_addrs: Default::default() };
+    let writer = SnapshotWriterActor::new(path.clone(), header).start();
+    actor.send(RaftApplyDataRequest::BuildSnapshot(writer.clone())).await.map_err(|e| format!("MODEL: {}", e))?.map_err(|e| format!("building the snapshot of the naming component fails: {}", e))?;
+    for _ in 0..2 {
+        writer.send(SnapshotWriterRequest::Flush).await.map_err(|e| format!("MODEL: {}", e))?.map_err(|e| format!("MODEL: {}", e))?;
+    }
+    let fresh = NamingActor::new().start();
+    let mut reader = SnapshotReader::init(&path).await.map_err(|e| format!("MODEL: reader: {}", e))?;
+    while let Some(rec) = reader.read_record().await.map_err(|e| format!("MODEL: read_record: {}", e))? {
+        fresh.send(RaftApplyDataRequest::LoadSnapshotRecord(rec)).await.map_err(|e| format!("MODEL: {}", e))?.map_err(|e| format!("loading a snapshot record of the naming component fails: {}", e))?;
+    }
+    let _ = fresh.send(RaftApplyDataRequest::LoadCompleted).await;
+    let list = |a: Addr<NamingActor>| {
+        let skey = skey.clone();
+        async move {
+            match a.send(NamingCmd::QueryAllInstanceList(skey)).await {
+                Ok(Ok(NamingResult::InstanceList(l))) => Ok(l),
+                _ => Err("MODEL: QueryAllInstanceList is not answered".to_string()),
+            }
+        }
+    };
+    let live: Vec<_> = list(actor.clone()).await?.into_iter().filter(|i| !i.ephemeral).collect();
+    let back = list(fresh.clone()).await?;
+    for i in &live {
+        let b = match back.iter().find(|b| b.ip == i.ip && b.port == i.port) {
+            Some(b) => b,
+            None => return Err(format!("the persistent instance at address {} is missing after a restart from the snapshot", i.port)),
+        };
+        let mut diff = vec![];
+        if b.weight != i.weight {
+            diff.push(format!("weight ({} before, {} after)", i.weight, b.weight));
+        }
+        if b.enabled != i.enabled {
+            diff.push(format!("enabled ({} before, {} after)", i.enabled, b.enabled));
+        }
+        if b.healthy != i.healthy {
+            diff.push(format!("healthy ({} before, {} after)", i.healthy, b.healthy));
+        }
+        if b.ephemeral != i.ephemeral {
+            diff.push("ephemeral".to_string());
+        }
+        if b.metadata != i.metadata {
+            diff.push(format!("metadata ({:?} before, {:?} after)", i.metadata, b.metadata));
+        }
+        if b.cluster_name != i.cluster_name {
+            diff.push(format!("cluster_name ({} before, {} after)", i.cluster_name, b.cluster_name));
+        }
+        if b.app_name != i.app_name {
+            diff.push(format!("app_name ({} before, {} after)", i.app_name, b.app_name));
+        }
+        if b.namespace_id != i.namespace_id || b.group_name != i.group_name || b.service_name != i.service_name {
+            diff.push("service key".to_string());
+        }
+        if !diff.is_empty() {
+            return Err(format!("the persistent instance at address {} comes back from the snapshot with another {}", i.port, diff.join(", ")));
+        }
+    }
+    for b in &back {
+        if !live.iter().any(|i| b.ip == i.ip && b.port == i.port) {
+            return Err(format!("an instance at address {} appears after a restart from the snapshot that the node did not hold", b.port));
+        }
+    }
+    Ok(())
+}
+
 async fn scenario(name: &str) -> Result<(), String> {
     use tokio::io::AsyncWriteExt;
+    if name == "naming_snapshot_history" {
+        return naming_snapshot_history().await;
+    }
     if name == "sequence_table_history" {
         return sequence_table_history().await;
     }
     if name == "filestore_hard_state" {
         return filestore_hard_state().await;
+    }
+    if let Some(l) = name.strip_prefix("metadata_file_") {
+        return metadata_file(l.split('_').filter_map(|x| x.parse().ok()).collect()).await;
     }
     if let Some(l) = name.strip_prefix("snapshot_big_records_") {
         return snapshot_big_records(l.split('_').filter_map(|x| x.parse().ok()).collect()).await;
